@@ -29,12 +29,13 @@ BUDGET = {"quick": 25.0, "thorough": 400.0}
 EXHAUSTIVE = {"quick": False, "thorough": False}  # exhaustive over code points only, not over the statement's strings
 CP_STRIDE = {"quick": 8, "thorough": 1}
 DET_FRAC = 0.90  # the enumerated phases may use up to this fraction of the budget IN CPU SECONDS (the machine is shared: wall
-# time under contention says nothing about the work done); being cut => INCONCLUSIVE.  Wall-clock safety net: 3 x budget.
-MIN_RANDOM_ROUNDS = {"quick": 50, "thorough": 500}  # x40 random texts each, done even if the wall budget is already used up
+# time under contention says nothing about the work done); being cut => INCONCLUSIVE.  Wall-clock safety net: 4 x budget + 60 s
+# (core kills a shard at 4 x budget + 120 s).
+MIN_RANDOM_ROUNDS = {"quick": 50, "thorough": 150}  # x40 random texts each, done even if the wall budget is already used up
 
 
 def det_more(ctx, frac=DET_FRAC) -> bool:
-    return time.process_time() < frac * ctx.budget and ctx.elapsed() < 3.0 * ctx.budget
+    return time.process_time() < frac * ctx.budget and ctx.elapsed() < 4.0 * ctx.budget + 60
 
 
 REQUIRE = {
@@ -119,8 +120,9 @@ RULE = (
     "bytes. (2) short texts: all sequences (quick <=4, thorough <=5 units, then random to 6) over class representatives: "
     "utf8 str {ascii, latin-1, CJK wide, combining, astral emoji, zero-width space, DEC glyph, control}, their utf-8 encodings "
     "mixed with malformed units {stray continuation, lone lead, truncated 3/4-byte, overlong 2/3-byte, encoded surrogate, "
-    ">U+10FFFF, F8/FF}, wide-mode byte strings over {0x20,0x41,0x40,0x7E,0x80,0x81,0xA4,0xFE,0xFF}, narrow byte strings, "
-    "str<->bytes pairs in each wide/narrow encoding, SO/SI byte strings; random texts over random code points. For each text: "
+    ">U+10FFFF, F8/FF}, wide-mode byte strings over {0x20,0x41,0x40,0x7E,0x80,0x81,0xA4,0xFE}, narrow byte strings, "
+    "str<->bytes pairs in each wide/narrow encoding, SO/SI byte strings, every DEC glyph alone / in context / every ordered pair of glyphs in every "
+    "encoding; random texts over random code points and random bytes. For each text: "
     "all pairs of character boundaries x all target columns x all column ranges inside the line. A case = (encoding, text); "
     "distinct = distinct such pairs; non-trivial = at least one character."
 )
@@ -719,9 +721,9 @@ def cp_in_alphabet(cp: int, enc: str, mode: str):
     return b
 
 
-STR_UNITS = ["a", "é", "漢", "́", "\U0001f600", "​", "─", "\x01"]
+STR_UNITS = ["a", "\u00e9", "\u6f22", "\u0301", "\U0001f600", "\u200b", "\u2500", "\x01"]
 # ascii, latin-1, CJK wide, combining, astral wide emoji, zero-width space, DEC glyph (box drawing), C0 control
-STR_UNITS_MORE = [" ", "ｱ", "£", "あ", "\U000e0100", "ᄀ", "­", "≤", "\x7f", "\u0085", "￿", "\U0010ffff"]
+STR_UNITS_MORE = [" ", "\uff71", "\u00a3", "\u3042", "\U000e0100", "\u1100", "\u00ad", "\u2264", "\x7f", "\u0085", "\uffff", "\U0010ffff"]
 MAL_UNITS = [
     b"\x80", b"\xc3", b"\xe3\x81", b"\xc0\x80", b"\xe0\x80\x80", b"\xed\xa0\x80", b"\xf4\x90\x80\x80", b"\xf0\x9f\x98", b"\xff",
     b"\xf8\x88\x80\x80\x80", b"\xe3", b"\xbf",
@@ -731,18 +733,18 @@ WIDE_BYTE_ALPHABET = bytes([0x20, 0x41, 0x40, 0x7E, 0x81, 0xA4, 0xFE, 0x80])
 NARROW_BYTE_ALPHABET = bytes([0x20, 0x41, 0x7E, 0x80, 0xA4, 0xFF])
 SHIFT_BYTE_ALPHABET = [b"a", bytes([SO]), bytes([SI]), b"q"]
 WIDE_STR_UNITS = {
-    "euc-jp": ["a", "漢", "あ", "Ａ", "　", "~"],
-    "gbk": ["a", "漢", "あ", "Ａ", "丂", "~"],  # U+4E02 -> 81 40 (low trail byte)
-    "big5": ["a", "漢", "あ", "Ａ", "一", "@"],  # U+4E00 -> A4 40
-    "euc-kr": ["a", "漢", "가", "Ａ", "　", "~"],
-    "gb2312": ["a", "汉", "あ", "Ａ", "　", "~"],
-    "uhc": ["a", "漢", "갂", "Ａ", "　", "~"],  # U+AC02 -> 81 41
+    "euc-jp": ["a", "\u6f22", "\u3042", "\uff21", "\u3000", "~"],
+    "gbk": ["a", "\u6f22", "\u3042", "\uff21", "\u4e02", "~"],  # U+4E02 -> 81 40 (low trail byte)
+    "big5": ["a", "\u6f22", "\u3042", "\uff21", "\u4e00", "@"],  # U+4E00 -> A4 40
+    "euc-kr": ["a", "\u6f22", "\uac00", "\uff21", "\u3000", "~"],
+    "gb2312": ["a", "\u6c49", "\u3042", "\uff21", "\u3000", "~"],
+    "uhc": ["a", "\u6f22", "\uac02", "\uff21", "\u3000", "~"],  # U+AC02 -> 81 41
 }
 NARROW_STR_UNITS = {
-    "ascii": ["a", " ", "~", "─", "£", "漢"],
-    "iso-8859-1": ["a", "é", "£", "─", "ÿ", "漢"],
-    "koi8-r": ["a", "Ж", "─", "═", "°", "é"],
-    "cp437": ["a", "é", "░", "─", "π", "☺"],
+    "ascii": ["a", " ", "~", "\u2500", "\u00a3", "\u6f22"],
+    "iso-8859-1": ["a", "\u00e9", "\u00a3", "\u2500", "\u00ff", "\u6f22"],
+    "koi8-r": ["a", "\u0416", "\u2500", "\u2550", "\u00b0", "\u00e9"],
+    "cp437": ["a", "\u00e9", "\u2591", "\u2500", "\u03c0", "\u263a"],
 }
 
 
@@ -908,7 +910,7 @@ def run(ctx):
         ok = run_texts(ctx, ses, (bytes(t) for t in sequences(UTF8_BYTE_ALPHABET, ctx.pick(3, 4))), DET_FRAC, "utf8-byte-alphabet") and ok
         ok = run_texts(ctx, ses, (b"".join(t) for t in sequences(SHIFT_BYTE_ALPHABET, 5)), DET_FRAC, "shift-bytes") and ok
         ses.flush()
-        ctx.sample({"enc": "utf-8", "text": "a漢́\U0001f600", "bytes": "a漢́\U0001f600".encode().hex()})
+        ctx.sample({"enc": "utf-8", "text": "a\u6f22\u0301\U0001f600", "bytes": "a\u6f22\u0301\U0001f600".encode().hex()})
         if not ok:
             incomplete.append("texts:utf-8")
     for k, enc in enumerate(wide_encs):
@@ -950,7 +952,7 @@ def run(ctx):
     rounds = 0
     max_rounds = 0 if os.environ.get("C11_CALIBRATE") else ctx.pick(2_000, 60_000)  # calibration: enumerated phases only
     min_rounds = MIN_RANDOM_ROUNDS[ctx.tier]
-    while (ctx.more(0.97) or rounds < min_rounds) and rounds < max_rounds:
+    while (ctx.more(0.97) or (rounds < min_rounds and ctx.elapsed() < 4.0 * ctx.budget + 60)) and rounds < max_rounds:
         rounds += 1
         enc = all_encs[rounds % len(all_encs)] if rounds % 3 else "utf-8"
         mode = W.mode_of_encoding(enc)
@@ -985,9 +987,9 @@ def run(ctx):
         U.set_encoding,
     )  # fmt: skip
     for enc, texts in (
-        ("utf-8", ["a漢́─", "a漢́─".encode(), b"a\xe3\x81\x80\xff"]),
-        ("euc-jp", ["a漢─", "a漢".encode("euc-jp"), b"\xa4\xa2@\x81\x40"]),
-        ("iso-8859-1", ["aé─", b"a\xe9\xff"]),
+        ("utf-8", ["a\u6f22\u0301\u2500", "a\u6f22\u0301\u2500".encode(), b"a\xe3\x81\x80\xff"]),
+        ("euc-jp", ["a\u6f22\u2500", "a\u6f22".encode("euc-jp"), b"\xa4\xa2@\x81\x40"]),
+        ("iso-8859-1", ["a\u00e9\u2500", b"a\xe9\xff"]),
     ):
         with Encoding(api, enc):
             ses = Session(ctx, api, enc)
